@@ -362,6 +362,10 @@ func (idx indexSubTable4) imageFor(gid gID, first, last gID) *bitmapImage {
 
 // imageData starts at the image (table[imageDataOffset:])
 func parseIndexSubTable4(header tables.BitmapSubtable, index tables.IndexData4, imageData []byte) (indexSubTable4, error) {
+	// the array has numGlyphs + 1 entries, computed on 32 bits: it is empty for numGlyphs = 0xFFFFFFFF
+	if len(index.GlyphArray) == 0 {
+		return indexSubTable4{}, errors.New("invalid bitmap index format 4: empty glyph array")
+	}
 	out := indexSubTable4{
 		format: header.ImageFormat,
 		glyphs: make([]indexedBitmapGlyph, len(index.GlyphArray)-1),
